@@ -62,7 +62,7 @@ def r10_2(ck, F):
         raise mir.AnchorMissing("drop task of Request::new")
     x = task[0]
     bb = [bb for bb, i, rv in x.aggregates(PORT_EVT, "Rejected")][0]
-    ce = [(switch_expr(x, s), switch_meaning(x, s, v)) for s, tb, v in controlling_edges(x, bb)]
+    ce = conds(x, bb)
     ok = any(e[0] == "call" and e[1] == "std::result::Result::is_err" and m is True and
              any(w[0] == "await" for w in mir.walk(e)) for e, m in ce)
     ck.expect(ok, "Request::new#reject-only-if-not-done", "Rejected only when done_rx.await is Err",
@@ -106,7 +106,7 @@ def r10_3(ck, F):
     tm = [bb for bb, i, rv in b.aggregates("chmux::client::ConnectError", "TooManyPendingConnectionRequests")]
     ok = False
     for bb in tm:
-        ce = [(switch_expr(b, s), switch_meaning(b, s, v)) for s, tb, v in controlling_edges(b, bb)]
+        ce = conds(b, bb)
         ok = ok or any(e[0] == "discr" and mir.calls_in(e, "chmux::client::ConnectRequestCrediter::try_request") and m == "None"
                        for e, m in ce)
     ck.expect(ok, "connect_ext#too-many", "None from try_request -> TooManyPendingConnectionRequests",
@@ -228,16 +228,16 @@ def r10_6(ck, F):
                 continue
             tab = {}
             for bb, i, rv in x.aggregates("chmux::client::ConnectError"):
-                ce = [(switch_expr(x, s), switch_meaning(x, s, v)) for s, tb, v in controlling_edges(x, bb)]
-                conds = []
+                ce = conds(x, bb)
+                cnd = []
                 for e, m in ce:
                     if mir.last_field(e) == "no_ports":
-                        conds.append(f"no_ports={m}")
+                        cnd.append(f"no_ports={m}")
                     elif e[0] == "discr" and m in ("Rejected", "Err", "Accepted", "Ok"):
-                        conds.append(str(m))
+                        cnd.append(str(m))
                     elif e[0] == "call" and "load" in e[1]:
-                        conds.append(f"listener_dropped={m}")
-                tab.setdefault(rv["variant"], []).extend(sorted(set(conds)))
+                        cnd.append(f"listener_dropped={m}")
+                tab.setdefault(rv["variant"], []).extend(sorted(set(cnd)))
             tables[fn.split("::")[-2]] = tab
     ck.expect(len(tables) == 2, "ConnectResponse#translation-sites", "two translation tasks found", f"found {sorted(tables)}", None)
     for who, tab in tables.items():
